@@ -93,11 +93,11 @@ class Schema(object):
                     uniques=[list(u[:2]) + [list(u[2])] for u in self.uniques])
 
 
-def build_api(schema, id_generator=None, factory=None):
+def build_api(schema, id_generator=None, factory=None, attr_form=list):
     import xtuml
     m = (factory or xtuml.MetaModel)(id_generator or xtuml.IntegerGenerator())
     for kind, attrs in schema.classes:
-        m.define_class(kind, list(attrs))
+        m.define_class(kind, attr_form(attrs))
     for kind, name, attrs in schema.uniques:
         m.define_unique_identifier(kind, name, *attrs)
     for r in schema.rops:
